@@ -279,7 +279,9 @@ func (k *kept) unmarshal(c Hist, into string, prev *kept) error {
 			g := new(bt.UTXOs)
 			switch {
 			case into == "stale":
-				*g = bt.UTXOs{libUTXO(c.StaleObj), libUTXO(c.StaleObj), libUTXO(c.StaleObj)}
+				// a used list: its elements share one script object and one txid slice
+				su := libUTXO(c.StaleObj)
+				*g = bt.UTXOs{su, {TxID: su.TxID, Vout: 1, LockingScript: su.LockingScript, Satoshis: 2}, {TxID: su.TxID, Vout: 2, LockingScript: su.LockingScript, Satoshis: 3}}
 			case into == "prev" && prev != nil && prev.gUTXOs != nil:
 				g, prev.gUTXOs = prev.gUTXOs, nil
 			}
